@@ -237,6 +237,9 @@ impl<T> ReceiverInternal<T> {
     pub fn try_recv(&mut self) -> Result<T, TryRecvError> {
         match self.chan.recv_semaphore.try_acquire(1) {
             Err(TryAcquireError::Closed) => Err(TryRecvError::Disconnected),
+            // Nothing buffered: like `recv`, report disconnection once the channel has been closed
+            // (by `close()` or because every sender is gone), since no message can arrive any more
+            Err(TryAcquireError::NoPermits) if self.is_closed() && self.is_empty() => Err(TryRecvError::Disconnected),
             Err(TryAcquireError::NoPermits) => Err(TryRecvError::Empty),
             Ok(()) => {
                 let message = self.chan.recv().expect(
